@@ -26,7 +26,8 @@ SPEC = dict(
         "start versions are valid for their pattern (reachable states); week 53 starts are excluded (known finding)",
     ],
     required=["test:accepted", "test:rejected", "update:accepted", "update:rejected", "setver:equal:rejected",
-              "setver:lower:rejected", "setver:malformed:rejected", "setver:pep-equal:rejected", "korder_checked"],
+              "setver:lower:rejected", "setver:malformed:rejected", "setver:pep-equal:rejected", "korder_checked",
+              "update_scope:default", "update_scope:global", "update_scope:branch"],
     anchors=[("cli", "_is_valid_version"), ("v2version", "incr"), ("cli", "update"), ("cli", "test")],
 )
 
@@ -219,8 +220,11 @@ def run_test(ctx, case, R, tdy):
 def run_update(ctx, case, R, tdy):
     mods = updates.bvmods()
     contracts.install_order_monitor()
+    cfg_scope = R.choice([None, None, "default", "global", "branch"])
+    cli_scope = R.choice([None, None, None, "default", "global", "branch"])
     proj, why = projects.gen_project(R, mods, tdy, eol_choices=("\n",), n_files=R.randint(1, 3), max_patterns=2,
-                                     allow_partial=False)
+                                     allow_partial=False, cfg_fmt="toml",
+                                     commit_cfg={"tag_scope": cfg_scope} if cfg_scope else None)
     if proj is None:
         raise harness.Skip(why)
     ast = ref.parse_pattern(proj.vp)
@@ -243,19 +247,24 @@ def run_update(ctx, case, R, tdy):
                     tags.append(rs[0])
             tags += R.sample(["junk", "v0", "1.2.3", "release-1"], R.randint(0, 2))
             tags = [t for t in tags if ref.parse(ast, t) is not None or True]
+            merged = [t for t in tags if R.random() < 0.5]
             fake.set_out("tag-list", "\n".join(tags) + "\n")
-            matching = [t for t in tags if ref.parse(ast, t) is not None]
-            best = old_text
-            unknown = False
-            for t in matching:
-                g = updates.gate(best, t)
-                if g == "unknown":
-                    unknown = True
-                elif g == "accept":
-                    best = t
-            if unknown:
-                raise harness.Skip("tag-order-unknown(both legacy)")
-            start_text = best
+            fake.set_out("tag-merged", "\n".join(merged) + "\n")
+            scope = cli_scope or cfg_scope or "default"
+            pool = merged if scope == "branch" else tags
+            matching = [t for t in pool if ref.parse(ast, t) is not None]
+            from bvmon.checks.C09 import vkey
+            if any(vkey(t) is None for t in matching) or vkey(old_text) is None:
+                raise harness.Skip("tag-order-unknown(non PEP 440)")
+            if not matching:
+                start_text = old_text
+            else:
+                best = max(matching, key=vkey)
+                if scope == "default":
+                    start_text = old_text if vkey(best) <= vkey(old_text) else best
+                else:
+                    start_text = best
+            ctx.count("update_scope:" + scope)
             start_state = updates.new_state_from_text(proj.vp, start_text, tdy)
         else:
             start_state = st
@@ -275,6 +284,8 @@ def run_update(ctx, case, R, tdy):
             flagkey = "".join("1" if fl.get(f) else "0" for f in gen.FLAG_NAMES)
         if dry:
             args.append("--dry")
+        if cli_scope:
+            args += ["--tag-scope", cli_scope]
         before = harness.snapshot(d)
         res = harness.invoke(args, cwd=d, env=env)
         after = harness.snapshot(d)
